@@ -11,7 +11,8 @@ from . import mir
 
 VERIF = factsmod.VERIF
 KNOWN = os.path.join(VERIF, "known_findings.json")
-EVID = os.path.join(VERIF, "evidence")
+# (developer runs against scratch copies redirect the evidence so that the committed files describe /repo only)
+EVID = os.environ.get("VERIF_EVIDENCE_DIR") or os.path.join(VERIF, "evidence")
 
 
 class Ctx:
